@@ -117,3 +117,13 @@ Proof. intros Hab Hbc Hcd Hv. cbv zeta. repeat split.
  - apply cq_gen_spec. apply lifts_g_trap; auto.
  - apply xmul_fin_eq. apply ce_gen_spec; [apply lifts_phi_trap | apply lifts_phip_trap]; auto.
  - apply xmul_fin_eq. apply ch_gen_spec; [apply lifts_phi_trap | apply lifts_phip_trap | | apply qphi_trap_respects]; auto. Qed.
+
+(* weight one: the plateau [b, c) covers the data (this is what interval_where_one = interval_where_positive = (-inf, inf) becomes) *)
+Lemma tw_weight_one_trap a b c d alpha v f o : a < b -> c < d -> b <= f -> b <= o -> f < c -> o < c -> 0 <= v ->
+  q_tw_sq_trap a b c d f o == q_sq_err f o /\ q_tw_abs_trap a b c d f o == q_abs_err f o /\
+  q_tw_quantile_trap a b c d alpha f o == q_pinball alpha f o /\ q_tw_expectile_trap a b c d alpha f o == q_asym_sq alpha f o /\
+  q_tw_huber_trap a b c d v f o == q_huber v f o.
+Proof. intros. unfold q_sq_err, q_abs_err, q_pinball, q_asym_sq, q_huber.
+ destruct (Qlt_le_dec (f - o) 0) as [N|N];
+ [assert (EA : Qabs (f - o) == - (f - o)) by (apply Qabs_neg; lra) | assert (EA : Qabs (f - o) == f - o) by (apply Qabs_pos; lra)];
+ set (A := Qabs (f - o)) in *; clearbody A; repeat split; unf_trap; qcmpp; qsolve; try (rewrite ?EA; field; lra). Qed.
